@@ -1,8 +1,8 @@
 From Coq Require Import Extraction ExtrOcamlBasic ExtrOcamlString.
 From Coq Require Import QArith ZArith.
-From Oras Require Import Base.Prelude Generated.GC17 Model.Retry.
+From Oras Require Import Base.Prelude Base.RetryTypes Generated.GC17 Model.Retry.
 Extraction Language OCaml.
-Extraction "xc17.ml" round_trip auth_do blob_push_gen auth_attempts table_policy default_predicate custom_predicate accept_decision generic_retry
+Extraction "xc17.ml" round_trip auth_do auth_do_tok auth_do_tokw_at blob_push_tok blob_push_gen auth_attempts table_policy parse_int64 default_predicate custom_predicate accept_decision generic_retry
   default_eparams exp_backoff_guarded default_max_retry default_min_wait default_max_wait
   attempts pauses is_prefix manifest_push_body indexed_manifest_push_body init_state
   Z.add Z.mul Z.opp Z.quotrem Z.of_N Z.to_pos Z.ltb Z.eqb.
